@@ -148,9 +148,17 @@ func (l *PackageDeployer) Deploy(
 	}
 
 	// Check constraints
-	if err := validateConstraints(ctx, l.uncachedClient, apiPkg, pkg.Manifest, env); err != nil {
+	constraintsMet, err := checkConstraints(ctx, l.uncachedClient, apiPkg, pkg.Manifest, env)
+	if err != nil {
 		setInvalidConditionBasedOnLoadError(apiPkg, err)
 		return err
+	}
+	if !constraintsMet {
+		// The Invalid condition has been set by checkConstraints.
+		// Do not roll out a package into an environment it does not support and
+		// explicitly do not return an error here, so the condition is persisted and
+		// the package is not re-pulled and re-checked over and over again.
+		return nil
 	}
 
 	// prepare package render/template context
@@ -322,11 +330,24 @@ func validateUnique(
 	}
 }
 
+// validateConstraints reports unmet constraints via the Invalid condition on apiPkg.
+// The returned error only covers constraints that could not be checked.
 func validateConstraints(
 	ctx context.Context,
 	uncachedClient client.Client,
 	apiPkg adapters.GenericPackageAccessor, manifest *manifests.PackageManifest, env manifests.PackageEnvironment,
 ) error {
+	_, err := checkConstraints(ctx, uncachedClient, apiPkg, manifest, env)
+	return err
+}
+
+// checkConstraints checks the constraints of the manifest against the given environment.
+// If constraints are not met, the Invalid condition is set on apiPkg and met is false.
+func checkConstraints(
+	ctx context.Context,
+	uncachedClient client.Client,
+	apiPkg adapters.GenericPackageAccessor, manifest *manifests.PackageManifest, env manifests.PackageEnvironment,
+) (met bool, err error) {
 	var messages []string
 	for _, constraint := range manifest.Spec.Constraints {
 		if len(constraint.Platform) > 0 {
@@ -338,7 +359,7 @@ func validateConstraints(
 		if constraint.PlatformVersion != nil {
 			rangeConstraint, err := semver.NewConstraint(constraint.PlatformVersion.Range)
 			if err != nil {
-				return err
+				return false, err
 			}
 			pv := constraint.PlatformVersion
 			var version semver.Version
@@ -352,7 +373,7 @@ func validateConstraints(
 				ok = false
 			}
 			if err != nil {
-				return err
+				return false, err
 			}
 			if !ok {
 				continue
@@ -367,7 +388,7 @@ func validateConstraints(
 
 	extra, err := validateUnique(ctx, uncachedClient, apiPkg, manifest)
 	if err != nil {
-		return err
+		return false, err
 	}
 
 	messages = append(messages, extra...)
@@ -380,9 +401,10 @@ func validateConstraints(
 			Message:            "Constraints not met: " + strings.Join(messages, ", "),
 			ObservedGeneration: apiPkg.ClientObject().GetGeneration(),
 		})
+		return false, nil
 	}
 
-	return nil
+	return true, nil
 }
 
 func platformConstraintMet(
